@@ -584,10 +584,23 @@ impl Check {
         let v: Value = serde_json::from_str(&s).map_err(|e| format!("{}: {}", path, e))?;
         let subname = v["sub"].as_str().unwrap_or("");
         let tape = unhex(v["tape"].as_str().unwrap_or(""));
+        let strict = v["strict"].as_bool().unwrap_or(true);
+        // replay files written by the libFuzzer leg name the sub-checks the fuzz target runs on one tape
+        if let Some(list) = v["subs"].as_array() {
+            for name in list.iter().filter_map(|x| x.as_str()) {
+                let Some(sub) = self.subs.iter().find(|s| s.name == name) else {
+                    return Err(format!("{}: unknown sub-check {}", path, name));
+                };
+                let (_c, r) = run_case(sub, tape.clone(), tier, strict, 0);
+                if let Err(f) = r {
+                    return Ok(Some(f));
+                }
+            }
+            return Ok(None);
+        }
         let Some(sub) = self.subs.iter().find(|s| s.name == subname) else {
             return Err(format!("{}: unknown sub-check {}", path, subname));
         };
-        let strict = v["strict"].as_bool().unwrap_or(true);
         let (_c, r) = run_case(sub, tape, tier, strict, 0);
         Ok(r.err())
     }
